@@ -43,6 +43,7 @@ class Executor(Base, ExprMixin, StmtMixin, CallMixin, StrMixin, SpecMixin):
         self.objstate = {}
         self.loop_depth = 0
         self.callee_envs = {}
+        self.heap_old = {}
 
     def sym_comprehension(self, *a):
         return self.unit.sym_comprehension(self, *a)
@@ -194,7 +195,27 @@ class Unit:
                 return VFunc(key, "callee", self.contract.calls[key], env=obj)
         return None
 
+    def heap_arrays(self, ex, attr):
+        kind = self.contract.heap[attr]
+        if attr not in ex.heap:
+            if kind.startswith("list["):
+                ek = kind[5:-1]
+                ex.heap[attr] = (z3.Array("heap0!%s#len" % attr, Ref, Int),
+                                 z3.Array("heap0!%s#arr" % attr, Ref, z3.ArraySort(Int, ex.sort_of(ek))))
+            else:
+                ex.heap[attr] = z3.Array("heap0!%s" % attr, Ref, ex.sort_of(kind))
+        return ex.heap[attr]
+
     def ref_attr(self, ex, base: Sym, attr):
+        if attr in self.contract.heap:
+            kind = self.contract.heap[attr]
+            h = self.heap_arrays(ex, attr)
+            if kind.startswith("list["):
+                ek = kind[5:-1]
+                ln = z3.Select(h[0], base.t)
+                ex.pc.append(ln >= 0)
+                return VList(ln, z3.Select(h[1], base.t), ek)
+            return ex.wrap(z3.Select(h, base.t), kind.split(":")[0], kind.split(":")[1] if ":" in kind else None)
         key = "%s.%s" % (base.cls, attr)
         spec = self.contract.calls.get(key)
         if spec is None and self.contract.unknown_calls == "effect":
@@ -224,6 +245,15 @@ class Unit:
         return self.call_callee(ex, key, spec, [recv] + list(args), kwargs, node, method=True)
 
     def ref_setattr(self, ex, base, attr, v):
+        if attr in self.contract.heap:
+            kind = self.contract.heap[attr]
+            h = self.heap_arrays(ex, attr)
+            if kind.startswith("list["):
+                lv = ex.as_vlist(v, kind[5:-1])
+                ex.heap[attr] = (z3.Store(h[0], base.t, ex.z(lv.length)), z3.Store(h[1], base.t, lv.arr))
+            else:
+                ex.heap[attr] = z3.Store(h, base.t, ex.z(v))
+            return
         raise GenError("attribute store on ref %s.%s" % (base.cls, attr))
 
     def ref_setitem(self, ex, base, idx, v):
@@ -248,7 +278,39 @@ class Unit:
             return "dict" in names
         if isinstance(v, Sym) and v.k == "str":
             return "str" in names
+        if isinstance(v, Sym) and v.k == "ref":
+            return self.ref_isinstance(ex, v, clsnode)
         raise GenError("isinstance(%r, %s)" % (v, names))
+
+    def class_universe(self):
+        """every Marko element class known after importing flowmark's renderer module (live hierarchy)"""
+        if not hasattr(Unit, "_universe"):
+            extract.live_module("flowmark.formats.flowmark_markdown")
+            from marko.element import Element
+            seen, stack = [], [Element]
+            while stack:
+                c = stack.pop()
+                if c in seen:
+                    continue
+                seen.append(c)
+                stack.extend(c.__subclasses__())
+            seen.sort(key=lambda c: (c.__module__, c.__qualname__))
+            Unit._universe = seen
+        return Unit._universe
+
+    def resolve_classes(self, clsnode):
+        ns = dict(vars(self.module))
+        val = eval(compile(ast.Expression(clsnode), "<cls>", "eval"), ns)
+        return val if isinstance(val, tuple) else (val,)
+
+    def ref_isinstance(self, ex, v, clsnode):
+        classes = clsnode if isinstance(clsnode, tuple) else self.resolve_classes(clsnode)
+        uni = self.class_universe()
+        tf = ex.th.uf("type_of", Ref, Int)
+        t = tf(v.t)
+        ex.pc.append(z3.And(t >= 0, t < len(uni)))
+        ids = [i for i, c in enumerate(uni) if issubclass(c, classes)]
+        return ex.wrap(z3.Or(*[t == i for i in ids]) if ids else z3.BoolVal(False), "bool")
 
     def path_join(self, ex, a, b):
         f = ex.th.uf("path_join", Ref, ex.z(b).sort(), Ref)
@@ -411,6 +473,8 @@ class Unit:
             cl = self.contract.clause(cl)
             f = ex.spec_eval(cl.expr, extra_env={"arg": _Ns(bound), **{"arg_" + k: v for k, v in bound.items()}})
             ex.prove("call", "%s.%s" % (name, label), f, cl.props, cl.finding, src=str(cl.expr))
+        if spec.kind == "ctxgen":
+            return self.ctxgen(ex, e, bound, name)
         if spec.kind == "inline":
             return self.inline(ex, e, bound, name)
         if spec.kind == "contract":
@@ -517,6 +581,41 @@ class Unit:
             ex.nonlocals.pop()
             ex.envs = saved
 
+    def ctxgen(self, ex, e, bound, name):
+        """@contextmanager generator of the repo: the real body split at its single top-level `yield`
+        (enter = statements before it, exit = statements after it; the exit half does not run when the
+        with-body raises, exactly as for a generator without try/finally)"""
+        body = extract.strip_docstring(e.fdef.body)
+        idx = [i for i, st in enumerate(body) if isinstance(st, ast.Expr) and isinstance(st.value, ast.Yield)]
+        if len(idx) != 1:
+            raise GenError("context manager %s: expected exactly one top-level yield" % name)
+        i = idx[0]
+        env = dict(bound)
+        yv = body[i].value.value
+
+        def run(stmts, ret=None):
+            saved = ex.envs
+            ex.envs = [env]
+            ex.nonlocals.append(set())
+            ex.frames.append(name)
+            ex.modstack.append(e.modname)
+            try:
+                ex.exec_block(stmts)
+                return ex.eval(ret) if ret is not None else None
+            finally:
+                ex.modstack.pop()
+                ex.frames.pop()
+                ex.nonlocals.pop()
+                ex.envs = saved
+
+        def enter(ex_):
+            return run(body[:i], yv)
+
+        def exit_(ex_, exc):
+            if exc is None:
+                run(body[i + 1:])
+        return VCtxMgr(enter, exit_)
+
     def by_contract(self, ex, spec, e, bound, name):
         c = REGISTRY.get(spec.target)
         if c is None:
@@ -614,6 +713,9 @@ def run_path(unit: Unit, th, decisions):
         for label, cl in c.requires.items():
             ex.assume(ex.spec_eval(c.clause(cl).expr))
         ex.old_envs = ex.snapshot_envs()
+        for a in c.heap:
+            unit.heap_arrays(ex, a)
+        ex.heap_old = dict(ex.heap)
         try:
             ex.exec_block(extract.strip_docstring(fdef.body))
             result = None
